@@ -194,6 +194,17 @@ class MemPrims:
                 else:
                     res.append((A.SOME(A.W(("enum_idx",), 64)), o_[1]))
             return res
+        if short in ("get", "get_mut", "first", "last", "first_mut", "last_mut", "get_unchecked", "get_unchecked_mut") and args and \
+                ("slice" in name or "[T]" in name or "Vec" in name) and "MemoryArea" in " ".join(t["f"].get("gargs", [])) and \
+                "Range" not in " ".join(t["f"].get("gargs", [])):
+            # an area taken from the list by position (a cached index, the first / last one): some area of the list, or none
+            mut_ = short.endswith("mut")
+            if "unchecked" in short:
+                return [(area_ref(mut_), path)]
+            p2 = path.copy()
+            if path.tags.get("area_seq") is not None:
+                path.tags["list_unsupported"] = short
+            return [(A.SOME(area_ref(mut_)), path), (A.NONE, p2)]
         if short in ("index", "index_mut") and "ops::Index" in name and len(args) == 2 and \
                 "MemoryArea" in (t["f"].get("gargs") or [""])[0] and "Range" not in " ".join(t["f"].get("gargs", [])[1:]):
             # memory[i] with an index obtained from a scan of the same list: the scanned area
